@@ -24,7 +24,7 @@ OUTCOMES_NOT_RUN = {"SKIP", "SKIP_UNCHANGED", "SKIP_PREVIOUS_FAILED", "PERSISTEN
 
 def gen_spec(rng, *, nt=(2, 6), marks=(), behs=("ok",), after_p=0.3, nomods=(1, 3), prodless_p=0.15,
              multi_prod_p=0.25, dens=0.5, user_markers=False, styles=("default", "annotated", "kwargs", "return"),
-             after_needs_prods=False):
+             after_needs_prods=False, link_p=0.0, dirprod_p=0.0, hashed_p=0.0):
     n = rng.randint(*nt)
     nmods = rng.randint(*nomods)
     tasks = []
@@ -71,7 +71,20 @@ def gen_spec(rng, *, nt=(2, 6), marks=(), behs=("ok",), after_p=0.3, nomods=(1, 
         tasks.append(t)
         for p in prods:
             produced.append((p, tid))
-    return {"tasks": tasks, "versions": {str(m): 0 for m in range(nmods)}, "inputs": {str(k): v for k, v in inputs.items()}}
+    spec = {"tasks": tasks, "versions": {str(m): 0 for m in range(nmods)}, "inputs": {str(k): v for k, v in inputs.items()}}
+    # optional features (off by default, the extra random draws only happen when a feature is requested)
+    if link_p:
+        spec["links"] = [k for k in inputs if rng.random() < link_p]          # inputs that are symlinks, edited through the target
+    if dirprod_p:
+        aftered = {a for t in tasks for a in t["after"]}
+        for t in tasks:
+            if t["prods"] and t["id"] not in aftered and t["beh"] == "ok" and rng.random() < dirprod_p:
+                t["dirprod"] = rng.choice(["a", "z"])                          # DirectoryNode product before / after the file products
+    if hashed_p:
+        for t in tasks:
+            if rng.random() < hashed_p:
+                t["hashed"] = True                                             # constant hashed PythonNode dependency
+    return spec
 
 
 # ------------------------------------------------------------------------------------------------
@@ -169,8 +182,10 @@ def derive_picks(obs):
     return picks + extra[:1], bool(extra)
 
 
-def run_history(server, hist, ctx=None, keep=False):
-    """Executes hist on the real code. Returns list of records (one per step)."""
+def run_history(server, hist, ctx=None, keep=False, servers=None):
+    """Executes hist on the real code. Returns list of records (one per step).
+    servers: optional list of build servers (distinct PYTHONHASHSEEDs) to rotate through for the successive builds."""
+    nbuild = 0
     root = common.scratch_dir("eng")
     clock = project.Clock()
     spec = copy.deepcopy(hist["spec"])
@@ -185,6 +200,9 @@ def run_history(server, hist, ctx=None, keep=False):
                 cfg = step[1]
                 project.clear_log(root)
                 pre = project.snapshot_nodes(root, spec)
+                if servers:
+                    server = servers[nbuild % len(servers)]
+                    nbuild += 1
                 obs = server.build(root, builder.cfg_to_kw(cfg), env=step[2] if len(step) > 2 else None)
                 obs["log"] = project.read_log(root)
                 post = project.snapshot_nodes(root, spec)
@@ -196,7 +214,8 @@ def run_history(server, hist, ctx=None, keep=False):
                 if p.exists():
                     project.write_file(p, p.read_text(), clock)
             elif kind == "delete":
-                project.node_path(root, step[1]).unlink(missing_ok=True)
+                p = project.node_path(root, step[1])
+                (p.resolve() if p.is_symlink() else p).unlink(missing_ok=True)   # a link stays, its target goes
             elif kind == "bump":       # ("bump", module)
                 m = str(step[1])
                 spec["versions"][m] = spec["versions"].get(m, 0) + 1
@@ -317,7 +336,7 @@ def replay_in_model(drv, hist, records, sel_eval=None):
 # campaign driver
 # ------------------------------------------------------------------------------------------------
 
-def run_campaign(ctx, histories, oracle, kinds=None, sel_eval=None, nseeds=None, nontrivial=None, compare_model=True):
+def run_campaign(ctx, histories, oracle, kinds=None, sel_eval=None, nseeds=None, nontrivial=None, compare_model=True, rotate_seeds=False):
     """histories: list of dicts {"spec", "steps", "tag"}. oracle(hist, records) -> list[(kind, msg, finding|None)]."""
     rng = ctx.rng
     nseeds = nseeds or (8 if not ctx.thorough else 16)
@@ -327,6 +346,8 @@ def run_campaign(ctx, histories, oracle, kinds=None, sel_eval=None, nseeds=None,
     try:
         def one(args):
             i, h = args
+            if rotate_seeds:   # successive builds of one history run under different PYTHONHASHSEEDs (fresh process each anyway)
+                return run_history(pool.pick(i), h, servers=[pool.pick(i + k) for k in range(len(hashseeds))])
             return run_history(pool.pick(i), h)
         with ThreadPoolExecutor(max_workers=nseeds) as ex:
             all_records = list(ex.map(one, enumerate(histories)))
